@@ -56,6 +56,7 @@ def typeOfC : CExpr → CT
   | .post _ t _ => t
   | .call _ _ ret _ => ret
   | .stmtexpr t _ _ => t
+  | .seqexpr _ _ _ _ val => typeOfC val
 
 /-- 6.3.1.3 on bit patterns: narrowing keeps the low bits, widening sign-extends iff the SOURCE is signed. -/
 def convBits (src dst : CT) {n : Nat} (x : BitVec n) : BitVec dst.width :=
@@ -191,6 +192,7 @@ def evalC (ms : MacroSem) (σ : MState) : CExpr → Except Stuck Val
   | .post _ _ _ => .error (.undef "hybrid: use evalCH")
   | .call _ _ _ _ => .error (.undef "hybrid: use evalCH")
   | .stmtexpr _ _ _ => .error (.undef "hybrid: use evalCH")
+  | .seqexpr _ _ _ _ _ => .error (.undef "hybrid: use evalCH")
 def evalCArgs (ms : MacroSem) (σ : MState) : List CExpr → List CT → Except Stuck (List Val)
   | [], _ => .ok []
   | _ :: _, [] => .error (.sort "macro arity")
@@ -269,6 +271,7 @@ def execC (ms : MacroSem) : Nat → CStmt → MState → Except Stuck MState
         .ok { σ with locals := setLocal (setLocal σ.locals "jump_flag" (.bool true)) "jump_target" v }
     | .exprstmt _ => .error (.undef "hybrid: use execCH")
     | .ret _ => .error (.undef "hybrid: use execCH")
+    | .vcall _ _ _ _ => .error (.undef "hybrid: use execCH")
     | .skip w =>
         if w == "STORE_SLOT_CANCELLED(pkt, slot);" then
           .ok { σ with locals := setLocal σ.locals "$slot_cancelled" (.bool true) }
